@@ -1,48 +1,88 @@
 #!/usr/bin/env python3
 """seed_matrix.py [ID ...]: for every confirmed seeded change under /verif/seeded, apply it to a scratch worktree of /repo,
-run every registered quick check against that worktree and record which checks report a VIOLATION.
-Writes /verif/seeded/MATRIX.json (input for the 'which check catches which change' table in DESIGN.md)."""
-import json, os, subprocess, sys, shutil
-sys.path.insert(0, os.path.dirname(os.path.abspath(__file__)))
+run the registered quick checks that cover the touched packages (plus the seed's own property) against that worktree and record
+which checks report a VIOLATION.  Writes /verif/seeded/MATRIX.json (input for the 'which check catches which change' table in
+DESIGN.md).  VERIF_MATRIX_ALL=1 runs every check for every seed.  Three worktrees are used in parallel."""
+import json, os, subprocess, sys, shutil, threading, queue, re
+HERE = os.path.dirname(os.path.abspath(__file__))
+sys.path.insert(0, HERE)
 from props import PROPS
-WT = "/tmp/wt_matrix"
-subprocess.run(["git", "-C", "/repo", "worktree", "remove", "--force", WT], capture_output=True)
-subprocess.run(["git", "-C", "/repo", "worktree", "add", "-q", "--detach", WT, "HEAD"], check=True)
-env = dict(os.environ, VERIF_REPO=WT, VERIF_EVIDENCE_DIR="/tmp/matrix_evidence", VERIF_OUT_DIR="/tmp/matrix_out")
+SEEDED = "/verif/seeded"
+MPATH = os.path.join(SEEDED, "MATRIX.json")
 only = set(sys.argv[1:])
 res = {}
-mpath = "/verif/seeded/MATRIX.json"
-if os.path.exists(mpath):
-    res = json.load(open(mpath))
-try:
-    for pid in sorted(os.listdir("/verif/seeded")):
-        d = os.path.join("/verif/seeded", pid)
-        if not os.path.isdir(d) or (only and pid not in only):
-            continue
-        for m in sorted(os.listdir(d)):
-            patch = os.path.join(d, m, "patch.diff")
-            if not os.path.exists(patch):
-                continue
-            subprocess.run(["git", "-C", WT, "checkout", "--", "."], check=True)
-            a = subprocess.run(["git", "-C", WT, "apply", patch], capture_output=True, text=True)
+if os.path.exists(MPATH) and only:
+    res = json.load(open(MPATH))
+lock = threading.Lock()
+
+
+def checks_for(pid, patch):
+    if os.environ.get("VERIF_MATRIX_ALL"):
+        return sorted(PROPS)
+    dirs = set(os.path.dirname(l[6:].strip()) for l in open(patch) if l.startswith("+++ b/"))
+    out = {pid}
+    for chk, P in PROPS.items():
+        for pkgs, _ in P["groups"]:
+            for pk in pkgs:
+                if pk.lstrip("./") in dirs:
+                    out.add(chk)
+    return sorted(out)
+
+
+def worker(wid, q):
+    wt = "/tmp/wt_matrix%d" % wid
+    subprocess.run(["git", "-C", "/repo", "worktree", "remove", "--force", wt], capture_output=True)
+    subprocess.run(["git", "-C", "/repo", "worktree", "add", "-q", "--detach", wt, "HEAD"], check=True)
+    env = dict(os.environ, VERIF_REPO=wt, VERIF_EVIDENCE_DIR="/tmp/matrix_evidence%d" % wid, VERIF_OUT_DIR="/tmp/matrix_out%d" % wid)
+    try:
+        while True:
+            try:
+                pid, m, patch = q.get_nowait()
+            except queue.Empty:
+                return
+            subprocess.run(["git", "-C", wt, "checkout", "--", "."], check=True)
+            a = subprocess.run(["git", "-C", wt, "apply", "--3way", patch], capture_output=True, text=True)
             if a.returncode != 0:
-                res[pid + "/" + m] = {"error": "patch does not apply to current HEAD: " + a.stderr[-200:]}
+                subprocess.run(["git", "-C", wt, "reset", "-q", "--hard"], capture_output=True)
+                with lock:
+                    res[pid + "/" + m] = {"error": "patch does not apply to current HEAD (the code it changed was repaired by a fix: commit since): " + a.stderr.strip()[-160:]}
                 continue
-            hits = {}
-            for chk in sorted(PROPS):
-                p = subprocess.run(["python3", "/verif/checks/run.py", chk], capture_output=True, text=True, cwd="/verif", env=env)
+            subprocess.run(["git", "-C", wt, "reset", "-q"], capture_output=True)  # --3way stages; keep only the working tree change
+            hits, und = {}, {}
+            ran = checks_for(pid, patch)
+            for chk in ran:
+                p = subprocess.run(["python3", os.path.join(HERE, "run.py"), chk], capture_output=True, text=True, cwd=os.path.dirname(HERE), env=env)
                 viol = [l for l in p.stdout.splitlines() if l.startswith("VIOLATION")]
-                und = [l for l in p.stdout.splitlines() if l.startswith("UNDECIDED")]
+                u = [l for l in p.stdout.splitlines() if l.startswith("UNDECIDED")]
                 if p.returncode != 0 and not viol:
-                    hits.setdefault("_undecided", {})[chk] = "check crashed: " + (p.stderr or p.stdout)[-200:]
+                    und[chk] = "check crashed: " + (p.stderr or p.stdout)[-200:]
                 elif viol:
-                    hits[chk] = [v.split("obligation=")[1].split(" ")[0] if "obligation=" in v else v[:80] for v in viol][:4]
-                elif und:
-                    hits.setdefault("_undecided", {})[chk] = len(und)
-            res[pid + "/" + m] = {"detected_by": {k: v for k, v in hits.items() if k != "_undecided"}, "undecided_in": hits.get("_undecided", {}),
-                                  "own_property_detects": pid in hits}
-            print(pid, m, "->", [k for k in hits if k != "_undecided"] or "MISSED", flush=True)
-            json.dump(res, open(mpath, "w"), indent=1, sort_keys=True)
-finally:
-    subprocess.run(["git", "-C", "/repo", "worktree", "remove", "--force", WT], capture_output=True)
-    shutil.rmtree("/tmp/matrix_evidence", ignore_errors=True); shutil.rmtree("/tmp/matrix_out", ignore_errors=True)
+                    hits[chk] = [(v.split("obligation=")[1].split(" ")[0] if "obligation=" in v else v[:80]) + (" [input replayed]" if "failing-input=" in v else "") for v in viol][:4]
+                elif u:
+                    und[chk] = len(u)
+            with lock:
+                res[pid + "/" + m] = {"detected_by": hits, "undecided_in": und, "own_property_detects": pid in hits, "checks_run": ran}
+                print(pid, m, "->", sorted(hits) or "MISSED", flush=True)
+                json.dump(res, open(MPATH, "w"), indent=1, sort_keys=True)
+            subprocess.run(["git", "-C", wt, "checkout", "--", "."], check=True)
+    finally:
+        subprocess.run(["git", "-C", "/repo", "worktree", "remove", "--force", wt], capture_output=True)
+        shutil.rmtree("/tmp/matrix_evidence%d" % wid, ignore_errors=True)
+        shutil.rmtree("/tmp/matrix_out%d" % wid, ignore_errors=True)
+
+
+q = queue.Queue()
+for pid in sorted(os.listdir(SEEDED)):
+    d = os.path.join(SEEDED, pid)
+    if not os.path.isdir(d) or (only and pid not in only):
+        continue
+    for m in sorted(os.listdir(d)):
+        patch = os.path.join(d, m, "patch.diff")
+        if os.path.exists(patch):
+            q.put((pid, m, patch))
+ths = [threading.Thread(target=worker, args=(i, q)) for i in range(3)]
+for t in ths:
+    t.start()
+for t in ths:
+    t.join()
+json.dump(res, open(MPATH, "w"), indent=1, sort_keys=True)
